@@ -24,6 +24,7 @@ CY = 'emd/cycles.py'
 FUNCTIONS = ['emd.cycles.Cycles.get_matching_cycles', 'emd.cycles.Cycles.add_cycle_metric', 'emd.cycles.Cycles._safe_add_metric', 'emd.cycles.Cycles.pick_cycle_subset',
              'emd.cycles.get_subset_vector', 'emd.cycles.get_chain_vector', 'emd._cycles_support.get_cycle_stat_from_samples', 'emd._cycles_support.make_slice_cache']
 ASSUMPTIONS = [
+    'augmented cycles: np.flipud is a view, np.where(mask)[0] the increasing list of the true positions (assumed, cross-checked); a python slice object carries symbolic bounds',
     'the container is an arbitrary object satisfying the class invariant (fields set directly; metrics is a map of symbolic vectors of length ncycles)',
     '_parse_condition is replaced by its contract in get_matching_cycles (name, comparator ufunc, float value); the parser itself is checked by exhaustive enumeration (bounded)',
     'assumed numpy contracts: zeros, column assignment, all(axis=1), comparison ufuncs, len, isnan, astype',
@@ -450,6 +451,9 @@ def run_history(ph, x, ops, use_cache):
         C = emd.cycles.Cycles(ph, use_cache=use_cache)
         cv = ref_cycles(ph)
         K = int(cv.max() + 1)
+        if K == 0:
+            # a wrap-free phase: a container without cycles stores no per-cycle metric at all (nothing to be coherent about)
+            return None if (C.ncycles == 0 and all(len(v) == 0 for v in C.metrics.values())) else 'a wrap-free phase gave a container with %d cycles / metrics %s' % (C.ncycles, {k_: len(v) for k_, v in C.metrics.items()})
         model = {'cv': cv, 'K': K, 'metrics': {}, 'sv': None, 'phase': np.asarray(ph, float)}
         good = []
         for c in range(K):
